@@ -112,6 +112,7 @@ class Popen:
         finally:
             set_spawning_popen(None)
 
+        parent_r = child_w = child_r = parent_w = None
         try:
             parent_r, child_w = os.pipe()
             child_r, parent_w = os.pipe()
@@ -141,12 +142,14 @@ class Popen:
             if not hasattr(fp, method):
                 method = "getvalue"
             with os.fdopen(parent_w, "wb") as f:
+                # The file object owns (and closes) the descriptor from now on
+                parent_w = None
                 f.write(getattr(fp, method)())
             self.pid = pid
         finally:
             if parent_r is not None:
                 util.Finalize(self, os.close, (parent_r,))
-            for fd in (child_r, child_w):
+            for fd in (child_r, child_w, parent_w):
                 if fd is not None:
                     os.close(fd)
 
